@@ -388,9 +388,12 @@ func conc(args []string) {
 			if !sameRun(after, ref) {
 				report(ConcOut{nsched, nsteps, "a later run of " + pr.expr + " differs from the first one", "run-history", fmt.Sprintf("%+v vs %+v", short(after), short(ref))})
 			}
+			prog, _ := xpm.ParseListing(machines[pr.expr].PrintMachine())
+			if !xpm.Recognised(prog) {
+				continue // reworded listing: the run is judged by its result only
+			}
 			runID++
 			ntraces++
-			prog, _ := xpm.ParseListing(machines[pr.expr].PrintMachine())
 			tenc.Encode(xpm.Event{Ev: "init", ID: runID, Expr: pr.expr, Prog: prog,
 				Ds: []xpm.Val{}, Ps: []xpm.Req{}, Ks: []map[string]string{}, Calls: []xpm.Call{}, Err: "none",
 				Res: xpm.Val{T: "b", N: xpm.NaNRec, Ms: []string{}, J: true}})
